@@ -45,6 +45,7 @@ class UnitResult:
         self.meta = None
         self.undecided = []       # list of reasons
         self.soft_undecided = []  # clause-scoped (a dropped hint): do not mask decided failures of other clauses
+        self.stubbed = {}         # fn id -> why its body could not be brought into the view (own obligations undecided)
         self.failures = []        # dicts: obligation, fn, label, kind, message, origin, rendered, props
         self.fn_success = {}      # fn short name -> bool
         self.fn_time_us = {}
@@ -58,10 +59,10 @@ class UnitResult:
         self.wall = 0.0
 
 
-def run_unit(unit, twin=False, rlimit=None, threads=2, auto_fns=None, _depth=0):
+def run_unit(unit, twin=False, rlimit=None, threads=2, auto_fns=None, _depth=0, stub_fns=None):
     res = UnitResult(unit, twin)
     t0 = time.time()
-    g = Gen(unit, false_twin=twin, auto_fns=auto_fns)
+    g = Gen(unit, false_twin=twin, auto_fns=auto_fns, stub_fns=stub_fns)
     try:
         text = g.build()
     except Undecided as e:
@@ -73,6 +74,7 @@ def run_unit(unit, twin=False, rlimit=None, threads=2, auto_fns=None, _depth=0):
         res.meta = g.meta()
         return res
     res.meta = g.meta()
+    res.stubbed = dict(g.stub_reasons)
     os.makedirs(BUILD, exist_ok=True)
     name = unit + ('.twin' if twin else '')
     path = os.path.join(BUILD, name + '.rs')
@@ -139,7 +141,27 @@ def run_unit(unit, twin=False, rlimit=None, threads=2, auto_fns=None, _depth=0):
         merged = dict(auto_fns or {})
         for k, v in missing.items():
             merged[k] = set(merged.get(k, set())) | v
-        return run_unit(unit, twin, rlimit, threads, merged, _depth + 1)
+        return run_unit(unit, twin, rlimit, threads, merged, _depth + 1, stub_fns)
+    # front-end errors located inside ONE function under contract: that function's body is out of Verus' reach (typically a new
+    # construct introduced by a change). Stub it (contract only) and decide everything else.
+    to_stub = set()
+    for d in diags:
+        if d.get('level') != 'error' or d.get('message', '').startswith('aborting due to'):
+            continue
+        if any(pat in d.get('message', '') for pat, _k in FAIL_MSG) or any(u in d.get('message', '') for u in UNDECIDED_MSG):
+            continue
+        for sp in d.get('spans', []):
+            if sp.get('is_primary'):
+                fn = _fn_at(g, sp['line_start'])
+                o = g.origin[sp['line_start'] - 1] if 0 < sp['line_start'] <= len(g.origin) else ('?', '', 0)
+                if fn and fn.get('kind') == 'fn' and not fn.get('stubbed') and o[0] == 'repo':
+                    to_stub.add(fn['id'].replace('#twin', ''))
+                    g.stub_reasons[fn['id'].replace('#twin', '')] = 'Verus rejects the body: ' + d.get('message', '')[:300]
+    if to_stub and _depth < 4:
+        r2 = run_unit(unit, twin, rlimit, threads, auto_fns, _depth + 1, set(stub_fns or []) | to_stub)
+        for k, v in g.stub_reasons.items():
+            r2.stubbed.setdefault(k, v)
+        return r2
     if vr.get('encountered-vir-error'):
         res.undecided.append('verus front-end (VIR) error in the generated view')
     # map diagnostics
